@@ -1,3 +1,5 @@
 module verifsimrt
 
 go 1.24.0
+
+toolchain go1.24.4
